@@ -194,7 +194,7 @@ def c11_rest(ctx, facts, nr, memo):
         n7 = engine.take_over(ctx, c12.obs, lambda o: o.rule == "C12.1" and o.key.split("|")[-1] in ("table", "atoms", "haystack"), "C11.7")
         ctx.floor("C11.7 obligations taken from the keep-alive table", n7, 2)
     except CheckerError as e:
-        ctx.ob("C11.7", "keep-alive-table", "the parser's keep-alive decision could be extracted", False, "client.rs", str(e))
+        raise CheckerError("C11.7 (the parser's keep-alive decision could not be extracted): %s" % e)
     # ---- C11.6 discarding the unread body of an answered or dropped request leaves the successor's bytes where they are (it then becomes
     # available): the drain of the length-limited reader takes exactly the bytes owed (rules of C09.2)
     import drain_rules as DR
